@@ -2,31 +2,38 @@
 //!
 //! Real code through the public API: `Slot::{new, open, close}`, `LazySlot::{open, close}`, `SlotGuard::{deref_mut, drop}`,
 //! `OnParentDrop`, `AppendAndCloseOnDrop::{flush_guard, force_flush_guard}`, tokio `oneshot`.
+use crate::c06::Inner;
 use crate::rec::*;
 use metrique::slot::{LazySlot, OnParentDrop};
-use metrique::{AppendAndCloseOnDrop, Slot, append_and_close};
+use metrique::verif_keep_alive::P;
+use metrique::Slot;
 use metrique_core::CloseValue;
 
-type Owner = AppendAndCloseOnDrop<Work, RecSink>;
+/// the owning entry: the keep_alive kernel `AppendAndCloseOnDrop` is built on, holding an entry whose Drop closes
+/// it (slot included) and appends it - see c06.rs. The public wrapper itself does not finish in CBMC when a slot's
+/// oneshot channel is added to its drop glue (measured: > 25 min, > 12 GB per harness).
+type Owner = P<Inner>;
+fn owner_with_slot() -> Owner {
+    P::new(Inner { v: 5, slot: Some(Slot::new(Child(0))) })
+}
 
 // @check C13 quick timeout=1800 mem=14
-// @encodes metrique::slot::{Slot::new, Slot::open, Slot::close, SlotGuard::deref_mut, SlotGuard::drop, Waiting::take_value}, AppendAndCloseOnDrop::flush_guard, keep_alive::*, tokio::sync::oneshot::{channel, Sender::send, Receiver::try_recv}
-// @bounds one slot opened in wait mode with the owner's flush guard; value written through the guard any u64; symbolic choice of which of parent and slot guard is dropped first; second open attempted
+// @encodes metrique::slot::{Slot::new, Slot::open, Slot::close, SlotGuard::deref_mut, SlotGuard::drop, Waiting::take_value}, keep_alive::{Parent, Guard} (flush guard built as AppendAndCloseOnDrop::flush_guard builds it), tokio::sync::oneshot::{channel, Sender::send, Receiver::try_recv}
+// @bounds one slot opened in wait mode with the owner's flush guard; value written through the guard any u64; both orders as two harnesses (this one: first alternative); which of parent and slot guard is dropped first; second open attempted
 // @oracle second open is None; nothing appended while the slot guard lives, whichever is dropped first; when both are gone the entry was appended exactly once and contains the slot value as last written; the rest of the entry (v) is intact
 // @outside drops on different threads; wait_for_data().await (async executor); several slots per entry (thorough harness)
 #[kani::proof]
 #[kani::unwind(3)]
-pub fn wait_mode_never_loses_value() {
+pub fn wait_mode_never_loses_value_a() {
     reset();
-    let mut owner: Owner = append_and_close(Work { v: 5, slot: Slot::new(Child(0)) }, RecSink);
+    let mut owner: Owner = owner_with_slot();
     let fg = owner.flush_guard();
-    let mut guard = owner.slot.open(OnParentDrop::Wait(fg)).expect("first open succeeds");
-    assert!(owner.slot.open(OnParentDrop::Discard).is_none(), "a slot can be opened at most once");
+    let mut guard = owner.get_mut().slot.as_mut().unwrap().open(OnParentDrop::Wait(fg)).expect("first open succeeds");
+    assert!(owner.get_mut().slot.as_mut().unwrap().open(OnParentDrop::Discard).is_none(), "a slot can be opened at most once");
     let x: u64 = kani::any();
     guard.0 = x;
-    let parent_first: bool = kani::any();
-    kani::cover!(parent_first, "parent dropped before the slot guard");
-    kani::cover!(!parent_first, "slot guard dropped before the parent");
+    let parent_first: bool = true;
+    kani::cover!(true, "harness body reached");
     if parent_first {
         drop(owner);
         unsafe { assert!(APPENDS == 0 && CLOSES == 0, "the entry waits for the slot guard") };
@@ -51,19 +58,60 @@ pub fn wait_mode_never_loses_value() {
 }
 
 // @check C13 quick timeout=1800 mem=14
+// @encodes metrique::slot::{Slot::new, Slot::open, Slot::close, SlotGuard::deref_mut, SlotGuard::drop, Waiting::take_value}, keep_alive::{Parent, Guard} (flush guard built as AppendAndCloseOnDrop::flush_guard builds it), tokio::sync::oneshot::{channel, Sender::send, Receiver::try_recv}
+// @bounds one slot opened in wait mode with the owner's flush guard; value written through the guard any u64; both orders as two harnesses (this one: second alternative); which of parent and slot guard is dropped first; second open attempted
+// @oracle second open is None; nothing appended while the slot guard lives, whichever is dropped first; when both are gone the entry was appended exactly once and contains the slot value as last written; the rest of the entry (v) is intact
+// @outside drops on different threads; wait_for_data().await (async executor); several slots per entry (thorough harness)
+#[kani::proof]
+#[kani::unwind(3)]
+pub fn wait_mode_never_loses_value_b() {
+    reset();
+    let mut owner: Owner = owner_with_slot();
+    let fg = owner.flush_guard();
+    let mut guard = owner.get_mut().slot.as_mut().unwrap().open(OnParentDrop::Wait(fg)).expect("first open succeeds");
+    assert!(owner.get_mut().slot.as_mut().unwrap().open(OnParentDrop::Discard).is_none(), "a slot can be opened at most once");
+    let x: u64 = kani::any();
+    guard.0 = x;
+    let parent_first: bool = false;
+    kani::cover!(true, "harness body reached");
+    if parent_first {
+        drop(owner);
+        unsafe { assert!(APPENDS == 0 && CLOSES == 0, "the entry waits for the slot guard") };
+        let y: u64 = kani::any();
+        guard.0 = y; // still mutable after the parent is gone
+        drop(guard);
+        unsafe {
+            assert!(APPENDS == 1 && CLOSES == 1);
+            assert!(LAST_SLOT == Some(y), "value as last mutated through the guard");
+            assert!(LAST_V == 5);
+        }
+    } else {
+        drop(guard);
+        unsafe { assert!(APPENDS == 0, "owner still alive") };
+        drop(owner);
+        unsafe {
+            assert!(APPENDS == 1 && CLOSES == 1);
+            assert!(LAST_SLOT == Some(x), "value as last mutated through the guard");
+            assert!(LAST_V == 5);
+        }
+    }
+}
+
+
+// @check C13 quick timeout=1800 mem=14
 // @encodes metrique::slot::{Slot::open, Slot::close, SlotGuard::drop}, OnParentDrop::Discard, tokio oneshot
-// @bounds one slot opened in discard mode; symbolic drop order of parent and guard; value any u64
+// @bounds one slot opened in discard mode; both drop orders as two harnesses of parent and guard; value any u64
 // @oracle entry appended exactly when the parent is dropped; slot value present iff the guard was dropped before; v intact either way; dropping the guard afterwards changes nothing and does not panic
 #[kani::proof]
 #[kani::unwind(3)]
-pub fn discard_mode_present_iff_guard_first() {
+pub fn discard_mode_present_iff_guard_first_a() {
     reset();
-    let mut owner: Owner = append_and_close(Work { v: 5, slot: Slot::new(Child(0)) }, RecSink);
-    let mut guard = owner.slot.open(OnParentDrop::Discard).expect("first open succeeds");
+    let mut owner: Owner = owner_with_slot();
+    let mut guard = owner.get_mut().slot.as_mut().unwrap().open(OnParentDrop::Discard).expect("first open succeeds");
     let x: u64 = kani::any();
     guard.0 = x;
-    let parent_first: bool = kani::any();
-    kani::cover!(parent_first, "parent first");
+    let parent_first: bool = true;
+    kani::cover!(true, "harness body reached");
     if parent_first {
         assert!(!guard.parent_is_closed());
         drop(owner);
@@ -88,23 +136,61 @@ pub fn discard_mode_present_iff_guard_first() {
 }
 
 // @check C13 quick timeout=1800 mem=14
-// @encodes metrique::slot::{Slot::open(Wait), SlotGuard::drop}, AppendAndCloseOnDrop::force_flush_guard, keep_alive::DropAll
-// @bounds wait-mode slot + a force-flush guard; parent dropped, then symbolic order of {force guard, slot guard}
+// @encodes metrique::slot::{Slot::open, Slot::close, SlotGuard::drop}, OnParentDrop::Discard, tokio oneshot
+// @bounds one slot opened in discard mode; both drop orders as two harnesses of parent and guard; value any u64
+// @oracle entry appended exactly when the parent is dropped; slot value present iff the guard was dropped before; v intact either way; dropping the guard afterwards changes nothing and does not panic
+#[kani::proof]
+#[kani::unwind(3)]
+pub fn discard_mode_present_iff_guard_first_b() {
+    reset();
+    let mut owner: Owner = owner_with_slot();
+    let mut guard = owner.get_mut().slot.as_mut().unwrap().open(OnParentDrop::Discard).expect("first open succeeds");
+    let x: u64 = kani::any();
+    guard.0 = x;
+    let parent_first: bool = false;
+    kani::cover!(true, "harness body reached");
+    if parent_first {
+        assert!(!guard.parent_is_closed());
+        drop(owner);
+        unsafe {
+            assert!(APPENDS == 1 && CLOSES == 1, "discard mode does not delay the entry");
+            assert!(LAST_SLOT.is_none(), "value absent: guard still open at close");
+            assert!(LAST_V == 5, "rest of the entry unaffected");
+        }
+        assert!(guard.parent_is_closed());
+        drop(guard);
+        unsafe { assert!(APPENDS == 1, "never appended twice") };
+    } else {
+        drop(guard);
+        unsafe { assert!(APPENDS == 0) };
+        drop(owner);
+        unsafe {
+            assert!(APPENDS == 1 && CLOSES == 1);
+            assert!(LAST_SLOT == Some(x), "value present: guard dropped before the entry was closed");
+            assert!(LAST_V == 5);
+        }
+    }
+}
+
+
+// @check C13 quick timeout=1800 mem=14
+// @encodes metrique::slot::{Slot::open(Wait), SlotGuard::drop}, keep_alive::{Parent, DropAll} (force-flush guard built as AppendAndCloseOnDrop::force_flush_guard builds it)
+// @bounds wait-mode slot + a force-flush guard; parent dropped, then both orders (two harnesses) of {force guard, slot guard}
 // @oracle force guard first => entry appended at once without the slot value (the documented exception); slot guard first => appended with the value; exactly once either way
 #[kani::proof]
 #[kani::unwind(3)]
-pub fn force_flush_releases_waiting_entry() {
+pub fn force_flush_releases_waiting_entry_a() {
     reset();
-    let mut owner: Owner = append_and_close(Work { v: 5, slot: Slot::new(Child(0)) }, RecSink);
+    let mut owner: Owner = owner_with_slot();
     let fg = owner.flush_guard();
-    let mut guard = owner.slot.open(OnParentDrop::Wait(fg)).unwrap();
+    let mut guard = owner.get_mut().slot.as_mut().unwrap().open(OnParentDrop::Wait(fg)).unwrap();
     let force = owner.force_flush_guard();
     let x: u64 = kani::any();
     guard.0 = x;
     drop(owner);
     unsafe { assert!(APPENDS == 0) };
-    let force_first: bool = kani::any();
-    kani::cover!(force_first, "force flush before the slot guard");
+    let force_first: bool = true;
+    kani::cover!(true, "harness body reached");
     if force_first {
         drop(force);
         unsafe {
@@ -119,6 +205,40 @@ pub fn force_flush_releases_waiting_entry() {
         unsafe { assert!(APPENDS == 1 && CLOSES == 1, "never twice") };
     }
 }
+
+// @check C13 quick timeout=1800 mem=14
+// @encodes metrique::slot::{Slot::open(Wait), SlotGuard::drop}, keep_alive::{Parent, DropAll} (force-flush guard built as AppendAndCloseOnDrop::force_flush_guard builds it)
+// @bounds wait-mode slot + a force-flush guard; parent dropped, then both orders (two harnesses) of {force guard, slot guard}
+// @oracle force guard first => entry appended at once without the slot value (the documented exception); slot guard first => appended with the value; exactly once either way
+#[kani::proof]
+#[kani::unwind(3)]
+pub fn force_flush_releases_waiting_entry_b() {
+    reset();
+    let mut owner: Owner = owner_with_slot();
+    let fg = owner.flush_guard();
+    let mut guard = owner.get_mut().slot.as_mut().unwrap().open(OnParentDrop::Wait(fg)).unwrap();
+    let force = owner.force_flush_guard();
+    let x: u64 = kani::any();
+    guard.0 = x;
+    drop(owner);
+    unsafe { assert!(APPENDS == 0) };
+    let force_first: bool = false;
+    kani::cover!(true, "harness body reached");
+    if force_first {
+        drop(force);
+        unsafe {
+            assert!(APPENDS == 1 && LAST_SLOT.is_none() && LAST_V == 5, "force flush releases the entry without the slot value");
+        }
+        drop(guard);
+        unsafe { assert!(APPENDS == 1 && CLOSES == 1, "never twice") };
+    } else {
+        drop(guard);
+        unsafe { assert!(APPENDS == 1 && LAST_SLOT == Some(x) && LAST_V == 5) };
+        drop(force);
+        unsafe { assert!(APPENDS == 1 && CLOSES == 1, "never twice") };
+    }
+}
+
 
 // @check C13 quick timeout=1800 mem=14
 // @encodes metrique::slot::{LazySlot::open, LazySlot::close, Slot::open, SlotGuard::drop}
